@@ -952,6 +952,19 @@ func (b *built) checkpoint(viaString bool) {
 			copy(s[len(s)-4:], []byte{0, 0, 0, 0})
 		}
 	}
+	if m.Stuffing > 0 && len(got) == len(want) && len(got) >= 4+m.Stuffing {
+		// the values of the alignment_stuffing bytes are the encoder's choice (the statement fixes their number through
+		// section_length and the zero checksum, checked above): they and the CRC_32 field are masked
+		if &cmp[0] == &got[0] {
+			cmp, cmpWant = append([]byte{}, got...), append([]byte{}, want...)
+		}
+		for _, s := range [][]byte{cmp, cmpWant} {
+			for k := len(s) - 4 - m.Stuffing; k < len(s); k++ {
+				s[k] = 0
+			}
+		}
+		b.c.Count("encode.alignment_stuffing_values_masked")
+	}
 	if !bytes.Equal(cmp, cmpWant) {
 		d := ref.FirstDiff(cmp, cmpWant)
 		where := "descriptor loop"
